@@ -1,4 +1,4 @@
-import LanceModel.C18.StepLemmas
+import LanceModel.C18.CallLemmas
 /-
 C18 lemmas, layer 8: the (key, row id) association across one call that updates, upserts or compacts.
 -/
@@ -26,7 +26,7 @@ theorem commit_pairs {L : Manifest} {T' : Txn} (hf : CommitFacts L T') (hku : T'
   · rw [hku] at hd; cases hd
   · rcases hm with ⟨hd, _⟩ | ⟨_, hp⟩
     · rw [hku] at hd; cases hd
-    · rw [harm] at hperm
+    · rw [applyFrags_eq_moveFrags T' A L.frags harm] at hperm
       exact (krs_perm hperm).trans (move_pairs L T' A hp)
 
 theorem keyOf_set_one (cells : Row) (x : Cell) : keyOf (cells.set 1 x) = keyOf cells := by
